@@ -32,6 +32,7 @@ def litOf? : Sexp → Option Lit
 partial def exprOf? : Sexp → Option Expr
   | .list [.atom "elit", l] => do pure (.lit (← litOf? l))
   | .list [.atom "epath", p, lo, hi] => do pure (.path (← pathOf? p) (← mkSpan? lo hi))
+  | .list [.atom "eqpath", p, .str toks, lo, hi] => do pure (.qpath (← pathOf? p) toks (← mkSpan? lo hi))
   | .list [.atom "egroup", e, lo, hi] => do pure (.group (← exprOf? e) (← mkSpan? lo hi))
   | .list [.atom "earray", .list es, .str toks, lo, hi] => do
       pure (.array (← es.mapM exprOf?) toks (← mkSpan? lo hi))
